@@ -93,6 +93,9 @@ def run_shard(shard, ctx):
             for ks in (("FLAT", "SPARSE", "FLAT"), ("SPARSE",), ("VMFS", "VMFSSPARSE"), ("SESPARSE", "FLAT")):
                 run_case({"kind": "vmdk", "extents": [[k, SIZES[j % 3], "RW", NAMES[j % 6] + str(j)] for j, k in enumerate(ks)],
                           "eol": eol}, ctx)
+        # descriptors opened by a relative name; the working directory changes before the first read
+        for ks in itertools.product(("FLAT", "VMFS", "SPARSE", "SESPARSE", "ZERO"), repeat=2):
+            run_case({"kind": "vmdk", "extents": [[k, SIZES[j], "RW", NAMES[j] + str(j)] for j, k in enumerate(ks)], "relative": True}, ctx)
         # extents that declare no sectors at all, at every position: they occupy nothing, what follows keeps its place
         for k0 in ("ZERO", "FLAT", "SPARSE", "SESPARSE"):
             for pos in (0, 1, 2, 3):
@@ -303,17 +306,24 @@ def _case_vmdk(case, ctx, d, buf):
         with open(os.path.join(decoy, ln[3]), "wb") as f:
             f.write(b"LOOKALIKE" * 57)
     cwd = os.getcwd()
-    os.chdir(decoy)
+    os.chdir(d if case.get("relative") else decoy)
     try:
-        v = VMDK(Path(d) / "disk.vmdk")
+        # relative: the descriptor is named relative to the working directory, which changes (to the directory of look-alikes)
+        # before the first read -- the extents are the files that lay next to the descriptor when it was opened
+        v = VMDK(Path("disk.vmdk")) if case.get("relative") else VMDK(Path(d) / "disk.vmdk")
+        if case.get("relative"):
+            os.chdir(decoy)
     except Exception as e:
+        os.chdir(cwd)
         ctx.violation(case, {"subject": "vmdk.descriptor.open", "kind": "exception", "exc": type(e).__name__,
                              "kinds": sorted(kinds)}, {"exception": repr(e)[:300]})
         return
     finally:
-        os.chdir(cwd)
+        if not case.get("relative"):
+            os.chdir(cwd)
 
     def closer():
+        os.chdir(cwd)
         for dsk in v.disks:
             try:
                 dsk.fh.close()
